@@ -13,6 +13,8 @@ import Bee2V.C10.PropsAead
 import Bee2V.C10.PropsAbsorb
 import Bee2V.C10.PropsGen
 import Bee2V.C10.PropsBrng
+import Bee2V.C10.PropsRefined
+import Bee2V.C10.PropsStd
 namespace Bee2V.C10
 open Bee2V.Gen.C10Structs
 
